@@ -191,6 +191,7 @@ let micro g s t (answers : answer list ref) =
     else
       (match next_instr s t, !answers with
        | Some (IPoll, false), (AMaint (_, _) as x) :: r -> answers := r; x
+       | Some ((IContAppend _ | IWsAppend (_, _)), false), (AKeep _ as x) :: r -> answers := r; x
        | _ -> ANone) in
   step g s (t, a)
 
@@ -302,6 +303,7 @@ let menu g faults (s : state) t : answer list =
        @ [AApp (AppDone false); AApp (AppDone true)] @ (if faults then [AApp AppRaise] else [])
      | IErrTask _ -> [AKeep true; AKeep false]
      | _ -> [ANone])
+  | Some ((IContAppend c | IWsAppend (c, _)), false) -> if (getc s c).bufc then [AKeep true; AKeep false] else [ANone]
   | Some (IPoll, false) -> [ANone]
   | _ -> [ANone]
 
